@@ -680,7 +680,79 @@ def run_placeholder(job):
     return out
 
 
+# ---- environment() methods: set / append / prepend against a variable that is already set where the command runs -----------
+# "env values arrive unchanged": what the build definition composes (documented in Reference-manual environment object: append /
+# prepend join the given value with the EXISTING value of the variable, separator ':' unless given) is what the process sees.
+ENVOP_VALUES = ['tail', 'two words', '$dollar;semi', "q'uote", '', 'é*?', '-opt=1', ' lead']
+
+
+def run_envop_project(_job):
+    from verif import mesonproc as mp
+    root = os.path.join(scratch_root(), 'c03eo.%d' % os.getpid())
+    shutil.rmtree(root, ignore_errors=True)
+    dumpdir = os.path.join(root, 'dumps')
+    os.makedirs(dumpdir)
+    L = ["project('envop')", "dump = find_program(%s)" % lit(DUMP)]
+    plan = []
+    for vi, v in enumerate(ENVOP_VALUES):
+        for method in ('set', 'append', 'prepend'):
+            for sep in (None, ';'):
+                if method == 'set' and sep:
+                    continue
+                for pos in ('run_target', 'custom_target', 'test'):
+                    name = '%s_%s_%s_%d' % (pos[:2], method, 'd' if sep is None else 's', vi)
+                    dp = os.path.join(dumpdir, name + '.dump')
+                    L.append('e_%s = environment()' % name)
+                    L.append("e_%s.%s('OPX', %s%s)" % (name, method, lit(v), '' if sep is None else ", separator: '%s'" % sep))
+                    if pos == 'run_target':
+                        L.append("run_target('%s', command: [dump, '--dump=%s', '--env=OPX'], env: e_%s)" % (name, dp, name))
+                    elif pos == 'custom_target':
+                        L.append("custom_target('%s', output: '%s.out', command: [dump, '--dump=%s', '--env=OPX'], env: e_%s)" % (name, name, dp, name))
+                    else:
+                        L.append("test('%s', dump, args: ['--dump=%s', '--env=OPX'], env: e_%s)" % (name, dp, name))
+                    s_ = ':' if sep is None else sep
+                    exp = v if method == 'set' else ('outer' + s_ + v if method == 'append' else v + s_ + 'outer')
+                    plan.append((pos, name, method, sep, v, exp, dp))
+    mp.write_tree(root, {'meson.build': '\n'.join(L) + '\n'})
+    env = mp.base_env(home=os.path.join(root, 'home'))
+    env['OPX'] = 'outer'
+    out = {'viol': [], 'cases': 0, 'by_kind': {}, 'wrapped': 0, 'rsp_edges': 0}
+    r = mp.run_meson(['setup', 'b'], root, env=env, timeout=600)
+    if r.rc != 0:
+        out['viol'].append(('C03:envop:setup-fails', 'meson setup rejects the environment-method project: ' + r.out[-400:], {'given': None}))
+        return out
+    bdir = os.path.join(root, 'b')
+    mf = rn.parse_file(os.path.join(bdir, 'build.ninja'))
+    byname = {}
+    for e in mf.edges:
+        for o in e.outs:
+            byname[o.split('/')[-1]] = e
+    mp.run_meson(['test', '-C', bdir, '--no-rebuild', '--num-processes', '4'], root, env=env, timeout=600)
+    for pos, name, method, sep, v, exp, dp in plan:
+        if pos != 'test':
+            e = byname.get('meson-internal__' + name) or byname.get(name + '.out') or byname.get(name)
+            if e is None:
+                out['viol'].append(('C03:envop:no-edge', 'no statement for ' + name, {'given': v}))
+                continue
+            rn.run_edge(e, bdir, env=dict(env))
+        out['cases'] += 1
+        kind = 'env-%s-%s' % (method, pos)
+        out['by_kind'][kind] = out['by_kind'].get(kind, 0) + 1
+        try:
+            _, envv = parse_dump(dp)
+            got = envv.get('OPX')
+        except Exception:
+            got = None
+        if got != b(exp):
+            out['viol'].append(('C03:envop:%s:%s' % (method, pos), '%s(%r%s) with OPX=outer in the environment: the process sees %r, expected %r'
+                                % (method, v, '' if sep is None else ', separator %r' % sep, got, exp), {'given': v, 'envop': [pos, method, sep]}))
+    shutil.rmtree(root, ignore_errors=True)
+    return out
+
+
 def run_any(job):
+    if job[1] == 'EO':
+        return run_envop_project(job)
     if job[1] == 'PH':
         return run_placeholder(job)
     return run_lang_project(job) if job[1] == 'LANG' else run_project(job)
@@ -719,6 +791,8 @@ def main():
         jobs.append((len(jobs), part, True))
     if ck.want('lang'):
         jobs.insert(0, (len(jobs), 'LANG', False))
+    if ck.want('envop'):
+        jobs.insert(0, (len(jobs), 'EO', False))
     if ck.want('placeholders'):
         for where in ('generator', 'custom_target'):
             for ph in PLACEHOLDERS:
